@@ -89,7 +89,7 @@ def read_front_matters(fh, mcnp_version):
             break
 
 
-def read_data(fh, mcnp_version, block_type=None, recursion=False):
+def read_data(fh, mcnp_version, block_type=None, recursion=False, ancestors=()):
     """
     Reads the bulk of an MCNP file for all of the MCNP data.
 
@@ -113,6 +113,10 @@ def read_data(fh, mcnp_version, block_type=None, recursion=False):
     :param recursion: Whether or not this is being called recursively. If True this has been called
                          from read_data. This prevents the reading queue causing infinite recursion.
     :type recursion: bool
+    :param ancestors: The paths of the files whose read inputs led to this file, the top-level file first.
+                         A read input that names one of them (or this file) again is rejected instead of being
+                         queued for ever.
+    :type ancestors: tuple
 
     :return: MCNP_Input instances: Inputs that represent the data in the MCNP input.
     :rtype: MCNP_Input
@@ -146,16 +150,30 @@ def read_data(fh, mcnp_version, block_type=None, recursion=False):
             current_file,
             start_line,
         )
+        read_input = None
         try:
             read_input = ReadInput(
                 input_raw_lines, block_type, current_file, start_line
             )
-            reading_queue.append((block_type, read_input.file_name, current_file.path))
-            yield None
         except ValueError as e:
             if isinstance(e, ParsingError):
                 raise e
+        if read_input is None:
             yield input
+        else:
+            file_name = read_input.file_name
+            read_chain = tuple(ancestors) + (current_file.path,)
+            top_directory = os.path.dirname(read_chain[0])
+            if os.path.join(top_directory, file_name) in read_chain:
+                raise MalformedInputError(
+                    read_input,
+                    f"The file {file_name} is read while it is being read: "
+                    f"{' -> '.join(read_chain)} -> {file_name}",
+                )
+            reading_queue.append(
+                (block_type, file_name, current_file.path, read_chain)
+            )
+            yield None
         continue_input = False
         input_raw_lines = []
 
@@ -206,9 +224,9 @@ def read_data(fh, mcnp_version, block_type=None, recursion=False):
     if not recursion:
         path = os.path.dirname(fh.name)
         while reading_queue:
-            block_type, file_name, parent = reading_queue.popleft()
+            block_type, file_name, parent, chain = reading_queue.popleft()
             new_wrapper = MCNP_InputFile(os.path.join(path, file_name), parent)
             with new_wrapper.open("r") as sub_fh:
                 new_wrapper = MCNP_InputFile(file_name, parent)
-                for input in read_data(sub_fh, mcnp_version, block_type, True):
+                for input in read_data(sub_fh, mcnp_version, block_type, True, chain):
                     yield input
